@@ -214,7 +214,7 @@ def _branch_and_price(
     total_cg_iters = 0
 
     # Solve root node LP via column generation
-    x_vals, lp_obj, cg_iters = _solve_node_lp(
+    x_vals, lp_obj, cg_iters, root_converged = _solve_node_lp(
         columns, column_set, demands, {}, pricing_fn, is_cutting_stock, max_iter, eps
     )
     total_cg_iters += cg_iters
@@ -222,11 +222,21 @@ def _branch_and_price(
     if lp_obj == float("inf"):
         return Result(None, float("inf"), 0, total_cg_iters, Status.INFEASIBLE)
 
+    # The converged root relaxation is the one bound that holds whatever happens in the tree: branching bounds single
+    # column variables, which pricing cannot respect, so node values below are not used to claim optimality
+    root_lp = lp_obj if root_converged else 0.0
+    root_bound = ceil(root_lp - eps)
+
+    def proven(obj):
+        return Status.OPTIMAL if obj <= root_bound + eps else Status.FEASIBLE
+
     # Check if root LP is already integer
     frac_idx, frac_val = _most_fractional(x_vals, eps)
     if frac_idx is None:
         solution = _build_solution(x_vals, columns, eps)
-        return Result(solution, lp_obj, 0, total_cg_iters, Status.OPTIMAL)
+        if _meets_demands(solution, demands):
+            obj = float(sum(solution.values()))
+            return Result(solution, obj, 0, total_cg_iters, proven(obj))
 
     # Initialize B&B
     best_solution: dict[tuple[int, ...], int] | None = None
@@ -254,7 +264,7 @@ def _branch_and_price(
         col_bounds = {idx: (lo, hi) for idx, lo, hi in node.column_bounds}
 
         # Solve node LP with column generation
-        x_vals, lp_obj, cg_iters = _solve_node_lp(
+        x_vals, lp_obj, cg_iters, _ = _solve_node_lp(
             columns, column_set, demands, col_bounds, pricing_fn, is_cutting_stock, max_iter, eps
         )
         total_cg_iters += cg_iters
@@ -271,16 +281,15 @@ def _branch_and_price(
         frac_idx, frac_val = _most_fractional(x_vals, eps)
 
         if frac_idx is None:
-            # Integer feasible - update incumbent
-            obj = sum(x for x in x_vals if x > eps)
-            if obj < best_obj - eps:
-                best_solution = _build_solution(x_vals, columns, eps)
+            # Integral point: a candidate plan, accepted only if it really produces every demanded piece
+            candidate = _build_solution(x_vals, columns, eps)
+            obj = float(sum(candidate.values()))
+            if obj < best_obj - eps and _meets_demands(candidate, demands):
+                best_solution = candidate
                 best_obj = obj
-
-                # Check gap
-                gap = (best_obj - lp_obj) / max(abs(best_obj), 1e-10)
-                if gap < gap_tol:
-                    return Result(best_solution, best_obj, nodes_explored, total_cg_iters, Status.OPTIMAL)
+                gap = (best_obj - root_lp) / max(abs(best_obj), 1e-10)
+                if best_obj <= root_bound + eps or gap < gap_tol:
+                    return Result(best_solution, best_obj, nodes_explored, total_cg_iters, proven(best_obj))
             continue
 
         # Branch on most fractional column
@@ -301,19 +310,23 @@ def _branch_and_price(
     if best_solution is None:
         return Result(None, float("inf"), nodes_explored, total_cg_iters, Status.INFEASIBLE)
 
-    status = Status.OPTIMAL if not tree else Status.FEASIBLE
-    return Result(best_solution, best_obj, nodes_explored, total_cg_iters, status)
+    return Result(best_solution, best_obj, nodes_explored, total_cg_iters, proven(best_obj))
 
 
 def _solve_node_lp(columns, column_set, demands, col_bounds, pricing_fn, is_cutting_stock, max_iter, eps):
-    """Solve LP relaxation at a B&B node via column generation."""
+    """Solve LP relaxation at a B&B node via column generation.
+
+    Returns (x_vals, lp_obj, cg_iters, converged); converged means pricing found no improving column, i.e. lp_obj is the
+    value of the full (not just the restricted) master under these bounds.
+    """
     cg_iters = 0
+    converged = False
 
     for _ in range(max_iter):
         x_vals, duals, lp_obj = _solve_bounded_master_lp(columns, demands, col_bounds, eps)
 
         if lp_obj == float("inf"):
-            return x_vals, lp_obj, cg_iters
+            return x_vals, lp_obj, cg_iters, True
 
         # Pricing
         new_col, pricing_value = pricing_fn(duals)
@@ -321,20 +334,25 @@ def _solve_node_lp(columns, column_set, demands, col_bounds, pricing_fn, is_cutt
         # Check reduced cost
         if is_cutting_stock:
             if pricing_value <= 1.0 + eps:
+                converged = True
                 break
         else:
             if new_col is None or pricing_value >= -eps:
+                converged = True
                 break
 
-        if new_col is not None and new_col not in column_set:
-            columns.append(new_col)
-            column_set.add(new_col)
+        if new_col is None or new_col in column_set:
+            # Pricing proposes a column the master already has (its variable is bounded at this node): no progress is
+            # possible, and the master value is not a proven bound
+            break
 
+        columns.append(new_col)
+        column_set.add(new_col)
         cg_iters += 1
 
     # Final solve
     x_vals, duals, lp_obj = _solve_bounded_master_lp(columns, demands, col_bounds, eps)
-    return x_vals, lp_obj, cg_iters
+    return x_vals, lp_obj, cg_iters, converged
 
 
 def _solve_bounded_master_lp(columns, demands, col_bounds, eps):
@@ -450,6 +468,11 @@ def _solve_bounded_master_lp(columns, demands, col_bounds, eps):
     objective = -tab[-1][-1]
 
     return x_vals, duals, objective
+
+
+def _meets_demands(solution, demands):
+    """True if the plan produces at least the demanded number of every piece."""
+    return all(sum(col[i] * cnt for col, cnt in solution.items()) >= d for i, d in enumerate(demands))
 
 
 def _most_fractional(x_vals, eps):
